@@ -12,9 +12,11 @@ import ast
 import re
 
 from ..prog import AnalysisError, ClassInfo, FuncInfo, dotted, unparse
-from ..absint import MiniEval, MiniExec, value_constants
+from ..absint import MiniEval, MiniExec, value_constants, to_poly
 from ..match import pretty, int_upper_bound, int_lower_bound
+from .. import sem
 from . import gnutil as G
+from .c19 import sym_paths, split_ifexp, bind_call, Lits
 
 PROP = "C20"
 BH = "geonet.basic_header"
@@ -165,116 +167,301 @@ def quantiser(ctx):
     ctx.floor("C20.lt-quantiser", 8)
 
 
+def _lt_millis(ctx, fi: FuncInfo, e: ast.AST):
+    """Lifetime in ms (exact polynomial, as text) that an expression `<LT>.set_value_in_millis(x)` /
+    `<LT>.set_value_in_seconds(x)` requests from the quantiser; None when `e` is not such a call."""
+    P = ctx.prog
+    if not isinstance(e, ast.Call) or len(e.args) + len(e.keywords) != 1:
+        return None
+    tg = [t for t in P.call_targets(fi, e, count=False, cha=False) if isinstance(t, FuncInfo)]
+    if len(tg) != 1 or tg[0].cls is None or tg[0].cls.qual != P.cls(f"{BH}.LT").qual:
+        return None
+    arg = e.args[0] if e.args else e.keywords[0].value
+    poly = to_poly(P, fi.module, arg, pretty)
+    if tg[0].name == "set_value_in_millis":
+        return repr(poly)
+    if tg[0].name == "set_value_in_seconds":      # = set_value_in_millis(1000 * x): obligation `seconds-to-ms`
+        return repr(to_poly(P, fi.module, ast.BinOp(left=ast.Constant(1000), op=ast.Mult(), right=arg), pretty))
+    return None
+
+
+def _header_cases(ctx, fi: FuncInfo) -> list:
+    """[(literals of the path, {field: value}, line)] for every BasicHeader construction a classmethod returns."""
+    P = ctx.prog
+    L = Lits(P, fi.module)
+    bh = P.cls(f"{BH}.BasicHeader")
+    out = []
+    for p in sym_paths(fi):
+        if p.kind == "raise":
+            continue
+        if p.value is None:
+            out.append((set(), None, fi.node.lineno))
+            continue
+        for conds, x in split_ifexp(p.value):
+            have = L.of(list(p.conds) + conds)
+            if any(Lits.neg(a) in have for a in have):
+                continue        # contradictory case (the same test taken both ways)
+            is_ctor = isinstance(x, ast.Call) and ((isinstance(x.func, ast.Name) and x.func.id == fi.params[0] and fi.kind == "classmethod") or
+                                                   any(t is bh for t in P.call_targets(fi, x, count=False, cha=False)))
+            if not is_ctor:
+                out.append((have, None, p.stmt.lineno))
+                continue
+            names = [f for f, (ann, _) in bh.fields.items() if ann is not None]
+            kws = {names[i]: a for i, a in enumerate(x.args) if i < len(names)}
+            kws.update({kw.arg: kw.value for kw in x.keywords if kw.arg})
+            out.append((have, kws, p.stmt.lineno))
+    return out
+
+
 def lt_sources(ctx):
     P = ctx.prog
+    lt_cls = P.cls(f"{BH}.LT")
+    # ---- the two initialisers used at origination
     fi = P.func(f"{BH}.BasicHeader.initialize_with_mib_request_and_rhl")
-    fl = ctx.flows.get(fi)
-    for c in P.calls_in(fi):
-        if dotted(c.func) == "cls" or (isinstance(c.func, ast.Name) and c.func.id == "BasicHeader"):
-            st = fl.state_at(c)
-            kws = {kw.arg: kw.value for kw in c.keywords if kw.arg}
-            alts = sorted(norm(pretty(unparse(a))) for a in fl.alternatives(kws["lt"], st))
-            want = sorted(["LT().set_value_in_millis(int(max_packet_lifetime*1000))",
-                           "LT().set_value_in_seconds(mib.itsGnDefaultPacketLifetime)"])
-            ctx.ob("C20.lt-source", fi.short(), "lt", alts == want,
-                   f"LT of an originated packet comes from {alts}; must be the requested lifetime (s -> ms) when given, else "
-                   f"the MIB default", f"{fi.module.rel}:{c.lineno}")
-            rhl = norm(pretty(unparse(fl.expand(kws["rhl"], st))))
-            ctx.ob("C20.lt-source", fi.short(), "rhl", rhl == "rhl", f"RHL field = `{rhl}` (the caller's value)", f"{fi.module.rel}:{c.lineno}")
-    # the None test selects the branch
-    n = [x for x in ast.walk(fi.node) if isinstance(x, ast.If)]
-    ok = any(norm(unparse(x.test)) in ("max_packet_lifetimeisnotNone", "max_packet_lifetimeisNone") for x in n)
-    ctx.ob("C20.lt-source", fi.short(), "none-selects-default", ok, "`max_packet_lifetime is not None` selects request vs MIB default", fi.loc)
+    mib, life, rhl = fi.params[1], fi.params[2], fi.params[3]
+    L = Lits(P, fi.module)
+    cases = _header_cases(ctx, fi)
+    got = set()
+    for have, kws, line in cases:
+        ms = _lt_millis(ctx, fi, kws["lt"]) if kws and "lt" in kws else None
+        got.add((frozenset(have), ms if ms is not None else f"<{unparse(kws['lt'])[:60] if kws and 'lt' in kws else 'no BasicHeader'}>"))
+    pol = lambda src: repr(to_poly(P, fi.module, ast.parse(src, mode="eval").body, pretty))
+    want = {(frozenset(L.want(f"{life} is not None")), pol(f"int({life} * 1000)")),
+            (frozenset(L.want(f"{life} is None")), pol(f"{mib}.itsGnDefaultPacketLifetime * 1000"))}
+    ctx.ob("C20.lt-source", fi.short(), "lt", got == want,
+           f"LT of an originated packet is quantised from {sorted((sorted(a), b) for a, b in got)} ms; must be the requested lifetime "
+           f"(s -> ms, int(x * 1000)) when one is given, else the MIB default itsGnDefaultPacketLifetime", fi.loc)
+    ok_rhl = bool(cases) and all(kws and "rhl" in kws and sem.same(kws["rhl"], rhl) for _, kws, _ in cases)
+    ctx.ob("C20.lt-source", fi.short(), "rhl", ok_rhl, "RHL field = the caller's value on every path", fi.loc)
+    ok_none = bool(cases) and all(L.holds(have, f"{life} is not None") or L.holds(have, f"{life} is None") for have, _, _ in cases)
+    ctx.ob("C20.lt-source", fi.short(), "none-selects-default", ok_none,
+           f"`{life} is None` (and nothing else) selects request vs MIB default", fi.loc)
+    # beacons (and anything else without a request): always the MIB default
+    fb = P.func(f"{BH}.BasicHeader.initialize_with_mib_and_rhl")
+    bmib, brhl = fb.params[1], fb.params[2]
+    cases = _header_cases(ctx, fb)
+    got = {(_lt_millis(ctx, fb, kws["lt"]) if kws and "lt" in kws else None) for _, kws, _ in cases}
+    wantb = repr(to_poly(P, fb.module, ast.parse(f"{bmib}.itsGnDefaultPacketLifetime * 1000", mode="eval").body, pretty))
+    ctx.ob("C20.lt-source", fb.short(), "lt", got == {wantb},
+           f"LT of a packet originated without a request is quantised from {sorted(map(str, got))} ms; must be the MIB default "
+           f"itsGnDefaultPacketLifetime (s -> ms)", fb.loc)
+    ctx.ob("C20.lt-source", fb.short(), "rhl", bool(cases) and all(kws and "rhl" in kws and sem.same(kws["rhl"], brhl) for _, kws, _ in cases),
+           "RHL field = the caller's value on every path", fb.loc)
+    # ---- the helpers the two rules above rely on
     sec = P.func(f"{BH}.LT.set_value_in_seconds")
-    src = norm(unparse(sec.node.body[-1]))
-    ctx.ob("C20.lt-source", sec.short(), "seconds-to-ms", src == f"returnself.set_value_in_millis({sec.params[1]}*1000)",
-           f"set_value_in_seconds delegates with x1000 (`{src}`)", sec.loc)
-    # indication lifetime: from the received basic header's LT through the reader table
+    okd = []
+    for p in sym_paths(sec):
+        v = p.value
+        tg = [t for t in P.call_targets(sec, v, count=False, cha=False) if isinstance(t, FuncInfo)] if isinstance(v, ast.Call) else []
+        okd.append(p.kind == "return" and len(tg) == 1 and tg[0].qual == P.func(f"{BH}.LT.set_value_in_millis").qual and
+                   _lt_millis(ctx, sec, v) == repr(to_poly(P, sec.module, ast.parse(f"{sec.params[1]} * 1000", mode="eval").body, pretty)))
+    ctx.ob("C20.lt-source", sec.short(), "seconds-to-ms", bool(okd) and all(okd),
+           "set_value_in_seconds(x) is set_value_in_millis(x * 1000) on every path", sec.loc)
+    mil = P.func(f"{BH}.LT.set_value_in_millis")
+    reads_self = [n for n in ast.walk(mil.node) if isinstance(n, ast.Name) and n.id == mil.params[0] and isinstance(n.ctx, ast.Load)]
+    ctx.ob("C20.lt-source", mil.short(), "receiver-independent", not reads_self,
+           "the quantiser's result depends on the requested value only (any LT instance may be used as receiver)", mil.loc)
+    # ---- indication lifetime: from the received basic header's LT through the reader table
     n_ind = 0
+    bhq = P.cls(f"{BH}.BasicHeader").qual
     for h in G.receive_handlers(ctx):
         for s in G.sinks_of(ctx, h):
             if s.kind != "deliver":
                 continue
             n_ind += 1
             fl = ctx.flows.get(s.fi)
-            kws = {kw.arg: kw.value for kw in s.node.keywords if kw.arg}
-            v = norm(pretty(unparse(fl.expand(kws.get("remaining_packet_lifetime", ast.Constant(None)), fl.state_at(s.node)))))
-            ctx.ob("C20.lt-indication", s.fi.short(), f"deliver#{n_ind}:lifetime",
-                   v == "float(basic_header.lt.get_value_in_seconds())",
-                   f"remaining_packet_lifetime = `{v[:80]}`; must be read from the received Basic Header's LT", f"{s.fi.module.rel}:{s.node.lineno}")
-            r = norm(pretty(unparse(fl.expand(kws.get("remaining_hop_limit", ast.Constant(None)), fl.state_at(s.node)))))
-            ctx.ob("C20.lt-indication", s.fi.short(), f"deliver#{n_ind}:rhl", r == "basic_header.rhl",
-                   f"remaining_hop_limit = `{r[:60]}`", f"{s.fi.module.rel}:{s.node.lineno}")
+            st = fl.state_at(s.node)
+            kws = bind_call(P, s.fi, s.node)
+            bhp = [p for p, ts in P.param_types(s.fi).items() if bhq in ts]
+            v = fl.expand(kws.get("remaining_packet_lifetime", ast.Constant(None)), st)
+            ok = any(sem.same(v, f"float({b}.lt.get_value_in_seconds())") or sem.same(v, f"{b}.lt.get_value_in_seconds()") for b in bhp)
+            ctx.ob("C20.lt-indication", s.fi.short(), f"deliver#{n_ind}:lifetime", ok,
+                   f"remaining_packet_lifetime = `{pretty(unparse(v))[:80]}`; must be read from the received Basic Header's LT",
+                   f"{s.fi.module.rel}:{s.node.lineno}")
+            r = fl.expand(kws.get("remaining_hop_limit", ast.Constant(None)), st)
+            ctx.ob("C20.lt-indication", s.fi.short(), f"deliver#{n_ind}:rhl", any(sem.same(r, f"{b}.rhl") for b in bhp),
+                   f"remaining_hop_limit = `{pretty(unparse(r))[:60]}`; must be the received Basic Header's RHL", f"{s.fi.module.rel}:{s.node.lineno}")
+    # seconds reported = floor(ms / 1000), decided on every representable lifetime
     gs = P.func(f"{BH}.LT.get_value_in_seconds")
-    ctx.ob("C20.lt-indication", gs.short(), "floor", norm(unparse(gs.node.body[-1])) == "returnself.get_value_in_millis()//1000",
-           "seconds = floor(ms / 1000): the reported lifetime never exceeds the encoded one", gs.loc)
-    ctx.floor("C20.lt-indication", 10)
+    gm = P.func(f"{BH}.LT.get_value_in_millis")
+    units = reader_units(ctx)
+    R = sorted({m * u for m in range(64) for u in units.values()})
+
+    def hook(me, call):
+        tg = [t for t in P.call_targets(gs, call, count=False, cha=False) if isinstance(t, FuncInfo)]
+        if len(tg) == 1 and tg[0].qual == gm.qual and not call.args and not call.keywords and dotted(call.func) == f"{gs.params[0]}.{gm.name}":
+            return me.env["<ms>"]
+        return NotImplemented
+    paths = [p for p in sym_paths(gs) if p.kind != "raise"]
+    bad = None
+    for ms in R:
+        hit = []
+        for p in paths:
+            ev = MiniEval(P, gs, {"<ms>": ms}, hook)
+            if all(bool(ev.ev(c)) == pol for c, pol in p.conds):
+                hit.append(ev.ev(p.value) if p.value is not None else None)
+        if len(hit) != 1 or hit[0] != ms // 1000 or isinstance(hit[0], bool):
+            bad = (ms, hit)
+            break
+    ctx.ob("C20.lt-indication", gs.short(), "floor", bad is None and bool(paths),
+           f"seconds = floor(ms / 1000) for each of the {len(R)} representable lifetimes: the reported lifetime never exceeds the encoded one"
+           if bad is None else f"a lifetime of {bad[0]} ms is reported as {bad[1]} s (floor gives {bad[0] // 1000})", gs.loc)
+    ctx.floor("C20.lt-indication", 11)
+
+
+def _mhl_cases(ctx):
+    """CommonHeader.initialize_with_request: [(literals of the case, MHL value expression)] over every path."""
+    P = ctx.prog
+    ih = P.func("geonet.common_header.CommonHeader.initialize_with_request")
+    L = Lits(P, ih.module)
+    ch = P.cls("geonet.common_header.CommonHeader")
+    names = [f for f, (ann, _) in ch.fields.items() if ann is not None]
+    out = []
+    for p in sym_paths(ih):
+        if p.kind == "raise":
+            continue
+        for conds, x in (split_ifexp(p.value) if p.value is not None else [([], None)]):
+            kws = None
+            if isinstance(x, ast.Call) and ((isinstance(x.func, ast.Name) and x.func.id == ih.params[0]) or
+                                            any(t is ch for t in P.call_targets(ih, x, count=False, cha=False))):
+                kws = {names[i]: a for i, a in enumerate(x.args) if i < len(names)}
+                kws.update({kw.arg: kw.value for kw in x.keywords if kw.arg})
+            dn = [frozenset()]
+            for c, pol in list(p.conds) + conds:
+                dn = Lits._and(dn, L.dnf(c, pol))
+            out.append((dn, kws.get("mhl") if kws else None, p.stmt.lineno if p.stmt is not None else ih.node.lineno))
+    return ih, L, out
+
+
+def _peel_header(P, bh_cls, e: ast.AST):
+    """`<root>.m1(..).m2(..)` -> (root, [m1, m2]) for a chain of BasicHeader copy methods."""
+    chain = []
+    while isinstance(e, ast.Call) and isinstance(e.func, ast.Attribute) and e.func.attr in bh_cls.methods and \
+            bh_cls.methods[e.func.attr].kind == "method":
+        chain.append(e.func.attr)
+        e = e.func.value
+    return e, list(reversed(chain))
+
+
+def _is_initialiser(P, fi, bh_cls, e: ast.AST) -> bool:
+    if not isinstance(e, ast.Call):
+        return False
+    tg = [t for t in P.call_targets(fi, e, count=False, cha=False) if isinstance(t, FuncInfo)]
+    return len(tg) == 1 and tg[0].cls is bh_cls and tg[0].kind == "classmethod" and tg[0].name.startswith("initialize")
 
 
 def hops(ctx):
     P = ctx.prog
     router = P.cls(ROUTER)
+    bh_cls = P.cls(f"{BH}.BasicHeader")
+    ch_cls = P.cls("geonet.common_header.CommonHeader")
     n = 0
     for m in router.methods.values():
         fl = ctx.flows.get(m)
-        bh_calls = [c for c in P.calls_in(m) if isinstance(c.func, ast.Attribute) and
-                    c.func.attr in ("initialize_with_mib_request_and_rhl", "initialize_with_mib_and_rhl") and dotted(c.func.value) == "BasicHeader"]
+        L = Lits(P, m.module)
+        bh_calls = [c for c in P.calls_in(m) if _is_initialiser(P, m, bh_cls, c)]
         for c in bh_calls:
             n += 1
             st = fl.state_at(c)
-            rhl = norm(pretty(unparse(fl.expand(c.args[-1], st))))
-            lt_arg = norm(pretty(unparse(fl.expand(c.args[1], st)))) if len(c.args) == 3 else "<mib>"
+            bound = bind_call(P, m, c)
+            callee = [t for t in P.call_targets(m, c, count=False, cha=False) if isinstance(t, FuncInfo)]
+            cp = callee[0].params
+            if cp[-1] not in bound:
+                raise AnalysisError(f"C20: no RHL argument at {m.module.rel}:{c.lineno}")
+            rhl_x = fl.expand(bound[cp[-1]], st)
+            rhl = norm(pretty(unparse(rhl_x)))
+            has_lt = len(cp) == 4
+            gdr = [p_ for p_, ts in P.param_types(m).items() if any(isinstance(t, str) and t.endswith(".GNDataRequest") for t in ts)]
+            req = gdr[0] if len(gdr) == 1 else None
             # matching common header in the same function
-            ch = [x for x in P.calls_in(m) if (isinstance(x.func, ast.Attribute) and dotted(x.func.value) == "CommonHeader") or
-                  dotted(x.func) == "CommonHeader"]
-            mhl = None
-            for x in ch:
+            mhl_x, mhl_kind = None, None
+            for x in P.calls_in(m):
+                tg = P.call_targets(m, x, count=False, cha=False)
                 xs = fl.state_at(x)
-                if isinstance(x.func, ast.Attribute) and x.func.attr == "initialize_with_request":
-                    req = norm(pretty(unparse(fl.expand(x.args[0], xs))))
-                    if req.startswith("dataclass_replace(request,max_hop_limit="):
-                        mhl = req[len("dataclass_replace(request,max_hop_limit="):-1]
-                    elif req == "request":
-                        mhl = "<request:single-hop=1>"
-                elif isinstance(x.func, ast.Attribute) and x.func.attr == "initialize_beacon":
-                    mhl = "1"
-                else:
-                    kws = {kw.arg: kw.value for kw in x.keywords if kw.arg}
-                    if "mhl" in kws:
-                        mhl = norm(pretty(unparse(fl.expand(kws["mhl"], xs))))
+                if any(isinstance(t, FuncInfo) and t.cls is ch_cls and t.name == "initialize_with_request" for t in tg):
+                    a = fl.expand(bind_call(P, m, x).get("request", ast.Constant(None)), xs)
+                    if req is not None and sem.same(a, req):
+                        mhl_kind = "request"
+                    elif isinstance(a, ast.Call) and any(isinstance(t, str) and t in ("ext:dataclasses.replace",) for t in P.call_targets(m, a, count=False)) \
+                            and a.args and req is not None and sem.same(a.args[0], req):
+                        kw = {k.arg: k.value for k in a.keywords if k.arg}
+                        # every other field of the request is kept by dataclasses.replace
+                        if set(kw) == {"max_hop_limit"}:
+                            mhl_x, mhl_kind = kw["max_hop_limit"], "value"
+                elif any(isinstance(t, FuncInfo) and t.cls is ch_cls and t.name == "initialize_beacon" for t in tg):
+                    mhl_x, mhl_kind = ast.Constant(1), "value"
+                elif any(t is ch_cls for t in tg):
+                    kw = bind_call(P, m, x)
+                    if "mhl" in kw:
+                        mhl_x, mhl_kind = fl.expand(kw["mhl"], xs), "value"
             con = m.short()
             loc = f"{m.module.rel}:{c.lineno}"
-            sel = "self.mib.itsGnDefaultHopLimitifrequest.max_hop_limit<=1elserequest.max_hop_limit"
-            if rhl == "1":
-                ok = mhl in ("1", "<request:single-hop=1>")
-                ctx.ob("C20.hops", con, "single-hop", ok, f"RHL 1 with MHL `{mhl}` (single-hop packets and beacons carry 1/1)", loc)
-                if mhl == "<request:single-hop=1>":
-                    ih = P.func("geonet.common_header.CommonHeader.initialize_with_request")
-                    src = norm(unparse(ih.node))
-                    ctx.ob("C20.hops", ih.short(), "shb-mhl-1",
-                           "ifht==HeaderType.TSBandhst==TopoBroadcastHST.SINGLE_HOP:mhl=1" in src,
-                           "CommonHeader.initialize_with_request forces MHL = 1 for SHB", ih.loc)
+            mhl_txt = "<the request's, 1 for SHB>" if mhl_kind == "request" else (pretty(unparse(mhl_x)) if mhl_x is not None else None)
+            if P.try_fold(m.module, rhl_x) == 1:
+                ok = (mhl_kind == "value" and P.try_fold(m.module, mhl_x) == 1) or mhl_kind == "request"
+                ctx.ob("C20.hops", con, "single-hop", ok, f"RHL 1 with MHL `{mhl_txt}` (single-hop packets and beacons carry 1/1)", loc)
             else:
-                ctx.ob("C20.hops", con, "rhl-selection", rhl in (sel, "self.mib.itsGnDefaultHopLimit"),
+                # RHL: the requested limit when it is above 1, else itsGnDefaultHopLimit (packets without a request: the default)
+                cases = split_ifexp(rhl_x)
+                dflt = "self.mib.itsGnDefaultHopLimit"
+                if req is None:
+                    ok = len(cases) == 1 and sem.same(cases[0][1], dflt)
+                else:
+                    from_req, others = [], []
+                    for conds, v in cases:
+                        dn = [frozenset()]
+                        for t_, pol in conds:
+                            dn = Lits._and(dn, L.dnf(t_, pol))
+                        (from_req if sem.same(v, f"{req}.max_hop_limit") else others).append((dn, v))
+                    eqv = Lits.equivalent([m_ for dn, _ in from_req for m_ in dn], L.dnf(ast.parse(f"{req}.max_hop_limit > 1", mode="eval").body, True))
+                    ok = bool(from_req) and eqv is True and all(sem.same(v, dflt) for _, v in others)
+                ctx.ob("C20.hops", con, "rhl-selection", ok,
                        f"RHL = `{rhl[:110]}`; must be the requested limit when above 1, else itsGnDefaultHopLimit", loc)
-                ctx.ob("C20.hops", con, "rhl-equals-mhl", mhl == rhl,
-                       f"MHL = `{str(mhl)[:110]}` must be the same value as RHL", loc)
-            if len(c.args) == 3:
-                ctx.ob("C20.lt-source", con, "lifetime-argument", lt_arg in ("request.max_packet_lifetime", "None"),
-                       f"lifetime handed to the Basic Header = `{lt_arg}`", loc)
+                ctx.ob("C20.hops", con, "rhl-equals-mhl", mhl_kind == "value" and sem.same(mhl_x if mhl_x is None else fl.expand(mhl_x, st), rhl_x)
+                       if mhl_x is not None else False,
+                       f"MHL = `{str(mhl_txt)[:110]}` must be the same value as RHL", loc)
+            if has_lt:
+                # a site that serves a GN-DATA.request hands on THAT request's lifetime; sites without a request (location
+                # service packets generated by the router itself) ask for the MIB default with None
+                lt_x = fl.expand(bound[cp[2]], st) if cp[2] in bound else None
+                if gdr:
+                    ok_lt = lt_x is not None and len(gdr) == 1 and sem.same(lt_x, f"{gdr[0]}.max_packet_lifetime")
+                    why = f"must be `{gdr[0]}.max_packet_lifetime`, the lifetime of the request being served"
+                else:
+                    ok_lt = isinstance(lt_x, ast.Constant) and lt_x.value is None
+                    why = "no GN-DATA.request is served here: must be None (MIB default)"
+                ctx.ob("C20.lt-source", con, "lifetime-argument", ok_lt,
+                       f"lifetime handed to the Basic Header = `{pretty(unparse(lt_x)) if lt_x is not None else '<missing>'}`; {why}", loc)
     if n < 6:
-        raise AnalysisError(f"C20: {n} Basic Header initialisations at origination found (confirmed: 7)")
-    ih = P.func("geonet.common_header.CommonHeader.initialize_with_request")
-    fl = ctx.flows.get(ih)
-    for k, s, st in fl.exits:
-        if k == "return":
-            alts = {norm(pretty(unparse(a))) for a in fl.alternatives(
-                [kw.value for kw in s.value.keywords if kw.arg == "mhl"][0], st)}
-            ctx.ob("C20.hops", ih.short(), "mhl-from-request", alts == {"1", "request.max_hop_limit"},
-                   f"MHL alternatives {sorted(alts)}", f"{ih.module.rel}:{s.lineno}")
+        raise AnalysisError(f"C20: {n} Basic Header initialisations at origination found (confirmed: 6)")
+    # CommonHeader.initialize_with_request: MHL = 1 exactly for SHB, else the request's limit
+    ih, Lh, cases = _mhl_cases(ctx)
+    req = ih.params[1]
+    ones = [m_ for dn, v, _ in cases if v is not None and P.try_fold(ih.module, v) == 1 for m_ in dn]
+    rest = [(dn, v) for dn, v, _ in cases if not (v is not None and P.try_fold(ih.module, v) == 1)]
+    want = Lh.dnf(ast.parse(f"{req}.packet_transport_type.header_type == HeaderType.TSB and "
+                            f"{req}.packet_transport_type.header_subtype == TopoBroadcastHST.SINGLE_HOP", mode="eval").body, True)
+    tsb = P.resolve_expr_entity(ih.module, ast.parse("HeaderType.TSB", mode="eval").body)
+    shb = P.resolve_expr_entity(ih.module, ast.parse("TopoBroadcastHST.SINGLE_HOP", mode="eval").body)
+    eqv = Lits.equivalent(ones, want)
+    ctx.ob("C20.hops", ih.short(), "shb-mhl-1", eqv is True and isinstance(tsb, tuple) and isinstance(shb, tuple),
+           "CommonHeader.initialize_with_request sets MHL = 1 exactly for HT = TSB / HST = SINGLE_HOP" if eqv else
+           f"MHL = 1 under {[sorted(m_) for m_ in ones][:3]}; must be exactly HT = TSB and HST = SINGLE_HOP", ih.loc)
+    ctx.ob("C20.hops", ih.short(), "mhl-from-request", bool(rest) and all(v is not None and sem.same(v, f"{req}.max_hop_limit") for _, v in rest),
+           f"MHL alternatives besides 1: {sorted({pretty(unparse(v)) if v is not None else '<none>' for _, v in rest})}; must be the request's max_hop_limit",
+           ih.loc)
     # ---- receiver discards RHL > MHL before any handler
     pch = P.func(f"{ROUTER}.process_common_header")
     fl = ctx.flows.get(pch)
+    L = Lits(P, pch.module)
+    bhp = [p_ for p_, ts in P.param_types(pch).items() if bh_cls.qual in ts]
+    dec = [c for c in P.calls_in(pch) if any(isinstance(t, FuncInfo) and t.cls is ch_cls and t.name.startswith("decode") for t in
+                                             P.call_targets(pch, c, count=False, cha=False))]
+    if len(bhp) != 1 or len(dec) != 1:
+        raise AnalysisError(f"C20: process_common_header: {len(bhp)} Basic Header parameter(s), {len(dec)} Common Header decode call(s)")
+    chx = fl.expand(dec[0], fl.state_at(dec[0]))
+    want = L.of([(ast.Compare(left=ast.parse(f"{bhp[0]}.rhl", mode="eval").body, ops=[ast.LtE()],
+                              comparators=[ast.Attribute(value=chx, attr="mhl", ctx=ast.Load())]), True)])
     nh = 0
     for c in P.calls_in(pch):
         tg = [t for t in P.call_targets(pch, c, count=False) if isinstance(t, FuncInfo) and t.name.startswith("gn_data_indicate")]
@@ -282,8 +469,15 @@ def hops(ctx):
             continue
         nh += 1
         st = fl.state_at(c)
-        conds = {norm(pretty(f.xkey)): f.pol for f in st.facts if f.kind == "cond"}
-        ok = any(v and re.fullmatch(r"CommonHeader\.decode_from_bytes\(packet\[0:8\]\)\.mhl>=basic_header\.rhl", k) for k, v in conds.items())
+        have = L.of([(f.xnode, f.pol) for f in st.facts if f.kind == "cond"])
+        ok = want <= have
+        # the handler is given the very headers that were compared
+        for pname, a in bind_call(P, pch, c).items():
+            ts = P.param_types(tg[0]).get(pname, set())
+            if ch_cls.qual in ts:
+                ok = ok and sem.same(fl.expand(a, st), chx)
+            if bh_cls.qual in ts:
+                ok = ok and sem.same(fl.expand(a, st), bhp[0])
         ctx.ob("C20.rhl-le-mhl", pch.short(), tg[0].name, ok,
                f"{tg[0].name} is reached only with RHL <= MHL established" if ok else
                f"{tg[0].name} is reachable for packets whose remaining hop limit exceeds the maximum hop limit",
@@ -295,6 +489,7 @@ def emitted_basic_header(ctx):
     """The Basic Header actually put on the wire at origination is the initialised one (only NH may be re-stamped)."""
     P = ctx.prog
     router = P.cls(ROUTER)
+    bh_cls = P.cls(f"{BH}.BasicHeader")
     n = 0
     for m in router.methods.values():
         if not (m.name.startswith("gn_data_request") or m.name.startswith("_send_ls") or m.name == "gn_data_indicate_ls_request"):
@@ -309,13 +504,12 @@ def emitted_basic_header(ctx):
                 bh = ops[0]
                 if not (isinstance(bh, ast.Call) and isinstance(bh.func, ast.Attribute) and bh.func.attr == "encode_to_bytes"):
                     continue
-                src = norm(pretty(unparse(bh.func.value)))
-                if "basic_header" in src and "initialize" not in src:
+                root, chain = _peel_header(P, bh_cls, bh.func.value)
+                if not _is_initialiser(P, m, bh_cls, root):
                     continue     # forwarded copy of a received header (C06.rhl)
                 n += 1
-                core = re.sub(r"\.set_nh\(BasicNH\.\w+\)", "", src)
-                ok = re.fullmatch(r"BasicHeader\.initialize_with_mib(_request)?_and_rhl\(.*\)", core) is not None and \
-                    ".set_rhl(" not in core and ".set_lt(" not in core
+                src = norm(pretty(unparse(bh.func.value)))
+                ok = all(x == "set_nh" for x in chain)
                 ctx.ob("C20.hops", m.short(), f"emitted-header:{n}", ok,
                        f"Basic Header on the wire = `{src[:150]}`; after initialisation only the NH field may be re-stamped "
                        "(a later set_rhl/set_lt detaches RHL from MHL or LT from the request)", f"{m.module.rel}:{c.lineno}")
@@ -337,4 +531,6 @@ def run(ctx):
     quantiser(ctx)
     lt_sources(ctx)
     hops(ctx)
+    ctx.floor("C20.lt-source", 12)
     emitted_basic_header(ctx)
+    ctx.floor("C20.hops", 27)
